@@ -54,6 +54,9 @@ def locksetVerdict (name : String) : String :=
   | "logger" => pairs (offenders loggerCtors logger)
   | "multitermGlobals" => pairs (offenders multitermGlobalsCtors multitermGlobals)
   | "aggLoop" => pairs (offendersRoles aggLoop)
+  | "stageState" => pairs (offendersClosures stageState)
+  | "stageStateFuncfile" => pairs (offendersClosures stageStateFuncfile)
+  | "stdlibGlobals" => pairs (offenders stdlibGlobalsCtors stdlibGlobals)
   | "aggregation" => mon (monitorOffenders aggregation)
   | "multiterm" => mon (monitorOffenders multiterm)
   | "termrenderers" => mon (monitorOffenders termrenderers)
